@@ -204,6 +204,16 @@ CHECKS["C20"] = dict(
     technique="CrossHair symbolic execution (z3) of the real dispatch code from directly constructed registry states",
     design="§4 C20", engine="E2", note=XH_NOTE)
 
+CHECKS["C18"] = dict(
+    level="proof",
+    text="The real SumDegreeEstimator handlers (dispatched through MultiFunction.__call__) run under CrossHair on "
+         "polynomial skeletons with symbolic element degrees (scalar polynomials with powers and gradients, components "
+         "of mixed, nested mixed, symmetric, symmetric-in-mixed and Piola-on-manifold elements, sub/super-degree pairs); "
+         "CrossHair confirms over all paths that estimate >= the exact generic-data degree computed by an independent "
+         "max-plus calculus with its own physical-component -> sub-element map.",
+    technique="CrossHair symbolic execution (z3) of the real degree-estimation handlers with symbolic degrees",
+    design="§4 C18", engine="E2", note=XH_NOTE)
+
 NOT_APPLICABLE = {
     "C11": "Signature injectivity is injectivity of string renderings (repr/str, numpy array printing, float "
            "formatting) composed with sha512: CrossHair cannot confirm it, z3/cvc5 string theories answer unknown, "
